@@ -846,30 +846,47 @@ def r_edge(E):
     # attach / detach pairing in ExplainableObject.set_modeling_obj_container
     rel, fn = pm.find_function(EB, "ExplainableObject.set_modeling_obj_container")
     res.instances += 1
-    sup = next((s for s in fn.body if isinstance(s, ast.Expr) and "super().set_modeling_obj_container" in norm(s)), None)
-    dereg = reg = None
-    for s in fn.body:
-        if isinstance(s, ast.If):
-            t = norm(s)
-            if "remove_child_from_direct_children_with_id" in t:
-                dereg = s
-            if "add_child_to_direct_children_with_id" in t:
-                reg = s
+    from ..astutil import enorm
+    from ..paths import enumerate_paths, path_formula, consistent, parse
+
+    def edge_loop(x, nm):
+        return isinstance(x, ast.For) and enorm(x.iter, fn) == "self.direct_ancestors_with_id" and any(
+            isinstance(c.func, ast.Attribute) and c.func.attr == nm for c in _calls(x))
+    is_sup = lambda x: isinstance(x, ast.Call) and norm(x.func) == "super().set_modeling_obj_container"
+    deregs = [x for x in ast.walk(fn) if edge_loop(x, "remove_child_from_direct_children_with_id")]
+    regs = [x for x in ast.walk(fn) if edge_loop(x, "add_child_to_direct_children_with_id")]
+    sups = [x for x in ast.walk(fn) if is_sup(x)]
     probs = []
-    if sup is None or dereg is None or reg is None:
+    if not sups or not deregs or not regs:
         probs.append("the deregistration loop, the super() call or the registration loop is missing")
     else:
-        if not (dereg.lineno < sup.lineno < reg.lineno):
-            probs.append("deregistration must precede, and registration follow, the change of container")
-        if norm(dereg.test) != "self.modeling_obj_container is not None":
-            probs.append(f"deregistration runs under `{norm(dereg.test)}` instead of `self.modeling_obj_container is not None`")
-        if norm(reg.test) != "new_modeling_obj_container is not None":
-            probs.append(f"registration runs under `{norm(reg.test)}` instead of `new_modeling_obj_container is not None`")
-        for blk, nm in ((dereg, "remove_child_from_direct_children_with_id"), (reg, "add_child_to_direct_children_with_id")):
-            loop = next((x for x in ast.walk(blk) if isinstance(x, ast.For)), None)
-            if loop is None or norm(loop.iter) != "self.direct_ancestors_with_id":
-                probs.append(f"{nm} is not applied to every element of self.direct_ancestors_with_id")
-            else:
+        # on every path: deregistration, then the change of container, then registration (whichever of them it runs);
+        # which paths must run them is R-ATTACH's clause
+        ps = [a.arg for a in fn.args.args]
+        for path in enumerate_paths(fn, lambda n: isinstance(n, ast.For) or is_sup(n)):
+            if path.end == "raise":
+                continue
+            order = []
+            for st in path.stmts:
+                for x in ast.walk(st):
+                    if any(x is d for d in deregs):
+                        order.append("D")
+                    elif any(x is r for r in regs):
+                        order.append("R")
+                    elif is_sup(x):
+                        order.append("S")
+            if "S" not in order or order != sorted(order, key="DSR".index):
+                probs.append("deregistration must precede, and registration follow, the change of container")
+                break
+            pf = path_formula(path.conds, fn)
+            if consistent(pf, parse("self.modeling_obj_container is not None")) and "D" not in order:
+                probs.append("deregistration is skipped on a path where the value had a container")
+                break
+            if len(ps) > 1 and consistent(pf, parse(f"{ps[1]} is not None")) and "R" not in order:
+                probs.append("registration is skipped on a path where the value gets a container")
+                break
+        for loops, nm in ((deregs, "remove_child_from_direct_children_with_id"), (regs, "add_child_to_direct_children_with_id")):
+            for loop in loops:
                 c = next((c for c in _calls(loop) if isinstance(c.func, ast.Attribute) and c.func.attr == nm), None)
                 if c is not None and not any(isinstance(st, ast.Expr) and st.value is c for st in loop.body):
                     probs.append(f"{nm} is applied to some ancestors only (it is nested under a condition inside the "
@@ -885,9 +902,14 @@ def r_edge(E):
     # the ancestor list built at construction takes both parents
     rel, ini = pm.find_function(EB, "ExplainableObject.__init__")
     res.instances += 1
-    loop = next((x for x in ini.body if isinstance(x, ast.For)), None)
-    if loop is None or "self.left_parent" not in norm(loop.iter) or "self.right_parent" not in norm(loop.iter) or \
-            "return_direct_ancestors_with_id_to_child" not in norm(loop):
+    def parents_in(e):
+        return {x.attr if isinstance(x, ast.Attribute) else x.id for x in ast.walk(e)
+                if (isinstance(x, ast.Attribute) and isinstance(x.value, ast.Name) and x.value.id == "self")
+                or isinstance(x, ast.Name)} & {"left_parent", "right_parent"}
+    loop = next((x for x in ast.walk(ini) if isinstance(x, ast.For) and parents_in(x.iter) == {"left_parent", "right_parent"}
+                 and any(isinstance(c.func, ast.Attribute) and c.func.attr == "return_direct_ancestors_with_id_to_child"
+                         for c in _calls(x))), None)
+    if loop is None:
         res.findings.append(Finding("R-EDGE", "ExplainableObject.__init__ ancestors",
                                     "the constructor no longer collects the ancestors of both parents", rel, ini.lineno,
                                     "ExplainableObject.__init__"))
@@ -945,11 +967,24 @@ def r_guard(E):
                                 "system and two systems")
     rel, sd = pm.find_function(MO, "ModelingObject.self_delete")
     res.instances += 1
-    guard = next((s for s in sd.body if isinstance(s, ast.If) and "self.modeling_obj_containers" in norm(s.test)
-                  and "not " not in norm(s.test) and any(isinstance(x, ast.Raise) for x in s.body)), None)
-    first_detach = min([c.lineno for c in _calls(sd) if isinstance(c.func, ast.Attribute)
-                        and c.func.attr == "set_modeling_obj_container"] or [10 ** 9])
-    if guard is None or guard.lineno > first_detach:
+    # every detach runs under conditions that establish "nothing holds this object": `if self.modeling_obj_containers:
+    # raise` before it, in any spelling (len(...) > 0, a local alias, an else arm)
+    from ..astutil import path_conditions as _pc
+    from ..paths import path_formula as _pf, implies as _imp, parse as _parse
+    detaches = [c for c in _calls(sd) if isinstance(c.func, ast.Attribute) and c.func.attr == "set_modeling_obj_container"]
+    unguarded = False
+    for c in detaches:
+        st = c
+        while st is not None and not isinstance(st, ast.stmt):
+            st = getattr(st, "_parent", None)
+        # (the statement may sit inside a loop: the loop's own position is what matters)
+        top = st
+        while getattr(top, "_parent", None) is not None and getattr(top, "_parent", None) is not sd:
+            top = top._parent
+        if not _imp(_pf(_pc(top, sd), sd), _parse("not self.modeling_obj_containers")):
+            unguarded = True
+    raises = any(isinstance(x, ast.Raise) for x in ast.walk(sd))
+    if unguarded or not raises or not detaches:
         res.findings.append(Finding(
             "R-GUARD", "ModelingObject.self_delete guard",
             "self_delete no longer raises on a non-empty modeling_obj_containers before its first detach: an object "
@@ -1014,7 +1049,7 @@ def r_guard(E):
             "explicitly recomputed; nothing reachable from ModelingUpdate calls it, so a link edit "
             "(`journey_of_A.uj_steps.append(step_of_B)`, `system_A.usage_patterns.append(pattern_of_B)`) puts objects in "
             "two systems", rel5, start.lineno, "ModelingUpdate.__init__"))
-    res.samples = [{"self_delete_guard_line": guard.lineno if guard else None, "first_detach_line": first_detach,
+    res.samples = [{"self_delete_detaches_guarded": not unguarded, "detach_sites": len(detaches),
                     "functions_reachable_from_ModelingUpdate": len(seen)}]
     res.floor = 5
     return res
